@@ -200,6 +200,8 @@ func (w *World) value(key, vc string, arg int) []byte {
 		return fill(3)
 	case "E":
 		return []byte{}
+	case "Z": // ends in zero bytes (a file whose last record is this one ends in zeros)
+		return append(fill(3), 0, 0, 0, 0, 0)
 	case "S2": // constant small value (identical bytes on every use)
 		return []byte("same")
 	case "F": // fixed length (arg bytes), independent of the configuration
